@@ -209,8 +209,8 @@ Definition next_push_data_len (buf : bytes) (pos lenlen min_push_len : N) : rout
 Definition instr_next (buf : bytes) (pos : N) : routcome (instr_tok * N) :=
   rbind (index_partial buf pos) (fun byte =>
     let pos1 := pos + 1 in
-    if (1 <=? byte) && (byte <=? 75) then
-      (* OP_PUSHBYTES_n *)
+    if byte <=? 75 then
+      (* Class::PushBytes(n), n = 0..75 (OP_0 is the empty push) *)
       let n := byte in
       let op_byte := index_partial buf pos1 in  (* self.data.as_slice().first(), peeked only when n = 1: guarded below *)
       rbind (if n =? 1 then
@@ -265,7 +265,7 @@ Definition E_LEX_INVALID_OP : N := 211.
 Definition E_LEX_NONMIN_VERIFY : N := 212.
 
 Definition lex_known_op (c : N) : bool :=
-  existsb (N.eqb c) [154;155;135;136;156;157;172;173;186;174;175;178;177;108;107;117;118;147;99;115;100;103;104;146;130;124;105;166;169;168;170;0]
+  existsb (N.eqb c) [154;155;135;136;156;157;172;173;186;174;175;178;177;108;107;117;118;147;99;115;100;103;104;146;130;124;105;166;169;168;170]
   || ((81 <=? c) && (c <=? 96)).
 
 Definition lex_one (prev : option ltoken) (i : instr_tok) : routcome (list ltoken) :=
@@ -278,7 +278,6 @@ Definition lex_one (prev : option ltoken) (i : instr_tok) : routcome (list ltoke
       | _ => ROk [LTok 105]
       end
     else if (c =? 136) || (c =? 157) || (c =? 173) || (c =? 175) then ROk [LTok (c - 1); LTok 105]
-    else if c =? 0 then ROk [LNum 0%Z]
     else if (81 <=? c) && (c <=? 96) then ROk [LNum (Z.of_N c - 80)%Z]
     else ROk [LTok c]
   | IPushBytes d =>
@@ -289,14 +288,18 @@ Definition lex_one (prev : option ltoken) (i : instr_tok) : routcome (list ltoke
     else rbind (read_scriptint d) (fun z => if (z <? 0)%Z then RErr E_LEX_NEG else ROk [LNum z])
   end.
 
-Fixpoint lex_fold (acc : list ltoken) (is : list instr_tok) : routcome (list ltoken) :=
-  match is with
-  | [] => ROk acc
-  | i :: r => rbind (lex_one (last (map Some acc) None) i) (fun ts => lex_fold (acc ++ ts) r)
-  end.
+(* lex(): ONE loop - `for ins in script.instructions_minimal() { match ins.map_err(Script)? {..} }`:
+   the first failing instruction or token ends it (order of errors as in the code) *)
+Fixpoint lex_loop (fuel : nat) (buf : bytes) (pos : N) (acc : list ltoken) : routcome (list ltoken) :=
+  if nlen buf <=? pos then ROk acc
+  else match fuel with
+       | O => RErr E_OUT_OF_FUEL
+       | S f => rbind (instr_next buf pos) (fun r =>
+                  let '(i, pos') := r in
+                  rbind (lex_one (last (map Some acc) None) i) (fun ts => lex_loop f buf pos' (acc ++ ts)))
+       end.
 
-Definition lex_model (script : bytes) : routcome (list ltoken) :=
-  rbind (instr_all (length script) script 0) (fun is => lex_fold [] is).
+Definition lex_model (script : bytes) : routcome (list ltoken) := lex_loop (length script) script 0 [].
 
 (* ================================================================== iter/tree.rs *)
 Inductive rtree := RNode (label : N) (children : list rtree).
